@@ -204,7 +204,22 @@ def interrupted(check, tier):
     s.done()
 
 
+def long_inputs(check, tier):
+    from bounded.common import long_values
+    s = Suite(check, "C01.long", "values with thousands of runs / characters: str() displays exactly their cells", bound="<= 6000 characters")
+    for label, v in long_values():
+        s.case(label, sample=label)
+        try:
+            d = run_value(v)
+        except Exception as e:      # noqa: BLE001
+            d = f"raised {type(e).__name__}: {e}"
+        if d:
+            s.fail("C01.str.long", dict(value=label), d[:400])
+    s.done()
+
+
 def run(check, tier, seed):
+    long_inputs(check, tier)
     deductive(check, tier)
     bounded(check, tier, seed)
     derived(check, tier, seed)
